@@ -274,6 +274,31 @@ func genC08(g *Gen) {
 		"array":     {{}, {"i:1"}, {"i:1", "s:x", "n"}, {"a", "o", "d:1", "i:2", "i:3", "i:4", "i:5", "i:6"}},
 		"abs":       {{"i:-8"}, {"i:7"}, {"l:-9007199254740993"}, {"l:9007199254740993"}, {"i:-9223372036854775807"}, {"l:-9223372036854775808"}, {"f:-2.25"}, {"d:-0.5"}, {"d:3.5"}, {"s:-3"}, {"b:true"}, {"n"}, {"a"}},
 	}
+	// calendar sweeps: the last days of every month in leap and common years, the ends of the day; the weekday of every day of four years
+	for _, mgr := range []string{"unsafe", "safe"} {
+		for _, y := range []int{1972, 1999, 2000, 2023, 2024, 2100} {
+			for m := 1; m <= 12; m++ {
+				for _, d := range []int{1, 28, 29, 30, 31} {
+					if d > time.Date(y, time.Month(m)+1, 0, 0, 0, 0, 0, time.UTC).Day() {
+						continue
+					}
+					emit("calendar sweep", mgr, "Date", []string{fmt.Sprintf("i:%d", y), fmt.Sprintf("i:%d", m), fmt.Sprintf("i:%d", d)})
+					if mgr == "unsafe" && (d >= 28 || m == 1) {
+						emit("calendar sweep", mgr, "date", []string{fmt.Sprintf("i:%d", y), fmt.Sprintf("i:%d", m), fmt.Sprintf("i:%d", d), "i:23", "i:59", "i:59"})
+						emit("calendar sweep", mgr, "DATE", []string{fmt.Sprintf("l:%d", y), fmt.Sprintf("i:%d", m), fmt.Sprintf("i:%d", d), "i:0", "i:0"})
+					}
+				}
+			}
+		}
+		if mgr == "unsafe" {
+			for _, y := range []int{2000, 2023, 2024, 2100} {
+				for day := 0; day < 366; day++ {
+					t := time.Date(y, 1, 1, []int{0, 12, 23}[day%3], []int{0, 30, 59}[day%3], []int{0, 0, 59}[day%3], 0, time.UTC).AddDate(0, 0, day)
+					emit("calendar sweep", mgr, "DayOfWeek", []string{fmt.Sprintf("t:%d", t.Unix())})
+				}
+			}
+		}
+	}
 	for _, fn := range coll.GetAll() {
 		name := fn.Name()
 		canon := strings.ToLower(name)
